@@ -263,6 +263,37 @@ Definition mode_after (cached : bool) (h : list lcfg) (first_byte : N) : option 
   | None => None
   end.
 
+(* ---------- the manager of a RUNNING listener over a history of AddOrUpdateListener calls ----------
+   pkg/server/handler.go connHandler.AddOrUpdateListener: the first call adds the listener (manager built from the request);
+   later calls take the update branch: fields of the running listener's rawConfig are assigned from the request one by one
+   and the manager is rebuilt by mtls.NewTLSServerContextManager(rawConfig).  Switches (Gen/TLSTokens.v
+   tls_update_ctxs_before_manager, tls_update_insp_before_manager): the TLS contexts / the inspector flag of rawConfig are
+   assigned BEFORE that call; with a switch off the field reaches rawConfig only afterwards, so the manager is built with the
+   value of the PREVIOUS update while the stored config already shows the new one. *)
+Record lrun := mkLR { lr_mgr : lcfg; lr_raw : lcfg }.
+Definition lis_update (cb ib : bool) (cur : option lrun) (c : lcfg) : lrun :=
+  match cur with
+  | None => mkLR (built c) c
+  | Some s => mkLR (built (if cb then fst c else fst (lr_raw s), if ib then snd c else snd (lr_raw s))) c
+  end.
+Fixpoint lis_after (cb ib : bool) (cur : option lrun) (h : list lcfg) : option lrun :=
+  match h with
+  | [] => cur
+  | c :: h' => lis_after cb ib (Some (lis_update cb ib cur c)) h'
+  end.
+Definition lis_mode_after (cb ib : bool) (h : list lcfg) (first_byte : N) : option conn_mode :=
+  match lis_after cb ib None h with
+  | Some s => Some (conn_mode_of true (negb (match fst (lr_mgr s) with [] => true | _ => false end)) (snd (lr_mgr s)) first_byte)
+  | None => None
+  end.
+(* what clients see after the history: is a plaintext client (first byte 'p') served; the certificate a TLS client gets
+   (the first context; 0 = no TLS handshake possible) *)
+Definition lis_observe (cb ib : bool) (h : list lcfg) : option (bool * nat) :=
+  match lis_after cb ib None h, lis_mode_after cb ib h 112, lis_mode_after cb ib h 22 with
+  | Some s, Some mp, Some mt => Some (serves_plain mp, match mt with ModeTLS => hd 0%nat (fst (lr_mgr s)) | _ => 0%nat end)
+  | _, _, _ => None
+  end.
+
 (* ---------- the context of an SDS provider over a history of pushes and config updates ----------
    secret_manager.go: the certificate secret, the validation (CA) secret and the TLSConfig of an SDS provider arrive
    separately and repeatedly; each arrival ends in sdsProvider.update(), which - once certificate and CA are present -
@@ -415,6 +446,13 @@ Definition sds_case_ok (always : bool) (k : sds_case) : bool :=
     end
   end.
 Definition sds_mismatches (always : bool) (l : list sds_case) : list nat := mismatches_from (sds_case_ok always) 0 l.
+
+(* AddOrUpdateListener history of one running listener, plaintext client served?, certificate seen by a TLS client *)
+Definition lis_case := (list lcfg * bool * nat)%type.
+Definition lis_case_ok (cb ib : bool) (k : lis_case) : bool :=
+  match k with (h, plain, cert) =>
+    match lis_observe cb ib h with Some (p, c) => andb (Bool.eqb p plain) (Nat.eqb c cert) | None => false end end.
+Definition lis_mismatches (cb ib : bool) (l : list lis_case) : list nat := mismatches_from (lis_case_ok cb ib) 0 l.
 
 (* update history of one listener name, first byte of a client, observed mode (0 raw, 1 tls, 2 plain) *)
 Definition upd_case := (list lcfg * N * N)%type.
